@@ -173,7 +173,15 @@ func c05GenValid(w *World, pr *Proto, p *Peer) (model.DatagramType, string) {
 		if w.T.Bool(1, 2, "reply") {
 			cl = model.CmdClassifierTypeReply
 		}
-		return mk(pf.Address(), lf.Address(), cl, listCmd(anyFn(pf.Type)), string(cl)+"-data")
+		fnT := pf.Type
+		tag := string(cl) + "-data"
+		if w.T.Bool(1, 4, "function-foreign-to-the-source-feature") {
+			// data of a function that the source feature's type does not have
+			fnT = allFeatureTypes[w.T.Choose(len(allFeatureTypes), "foreign-type")]
+			tag += "-foreign-function"
+			w.Probe("c05-foreign-function-in-notify-or-reply")
+		}
+		return mk(pf.Address(), lf.Address(), cl, listCmd(anyFn(fnT)), tag)
 	case 10, 11: // write
 		return mk(pf.Address(), sf.Address(), model.CmdClassifierTypeWrite, listCmd(anyFn(sf.Type)), "write")
 	case 12: // result
